@@ -307,8 +307,81 @@ class Result:
         self.undelivered = 0
 
 
-def run_parent(solvers, mode, var, cache, faults, prefix, pickling, reuse=False) -> Result:
-    sched = Sched(prefix)
+class OrderSched(Sched):
+    """Follows a given delivery order of producers (an order observed with real processes); every other choice is the default."""
+
+    def __init__(self, order):
+        super().__init__([])
+        self.order = list(order)
+
+    def choose(self, options):
+        idx = 0
+        deliveries = [k for k, o in enumerate(options) if o[0][0] == "deliver"]
+        if deliveries:
+            if not self.order:
+                raise HarnessError("conformance replay: the model offers a delivery the real run did not make")
+            want = self.order[0]
+            match = [k for k in deliveries if options[k][0][1] == want]
+            if not match:
+                raise HarnessError(f"conformance replay: real delivery from worker {want} is not enabled in the model: {options}")
+            idx = match[0]
+            self.order.pop(0)
+        self.trace.append(([o[0] for o in options], [o[1] for o in options], idx))
+        return options[idx][0]
+
+
+def run_real(solvers, mode, var, timeout=60):
+    """The same call with the real multiprocessing library (fork); the parent's queue is wrapped to log what it receives."""
+    import multiprocessing
+    import signal
+
+    log = []
+
+    class LoggingQueue:
+        def __init__(self, *a, **k):
+            self.q = multiprocessing.Queue(*a, **k)
+
+        def get(self, *a, **k):
+            m = self.q.get(*a, **k)
+            log.append((int(m[0]), None if m[1] is None else tuple(int(v) for v in m[1]), np.array(m[2], copy=True)))
+            return m
+
+        def put(self, *a, **k):
+            return self.q.put(*a, **k)
+
+        def __getattr__(self, name):
+            return getattr(self.q, name)
+
+    real_Q = MS.Queue
+    MS.Queue = LoggingQueue
+    res = Result()
+
+    def on_alarm(*_):
+        raise TimeoutError("real-process run exceeded its deadline")
+
+    old = signal.signal(signal.SIGALRM, on_alarm)
+    signal.alarm(timeout)
+    try:
+        mp = MS.MultiprocessingSolver(solvers, log_level="ERROR")
+        if mode == "solve":
+            for sol in mp.solve():
+                res.yielded.append(tuple(int(v) for v in sol))
+        else:
+            r = mp.minimize(var) if mode == "min" else mp.maximize(var)
+            res.value = None if r is None else tuple(int(v) for v in r)
+        res.stats = mp.get_statistics()
+    except Exception as e:  # noqa
+        res.error = f"{type(e).__name__}: {e}"
+    finally:
+        signal.alarm(0)
+        signal.signal(signal.SIGALRM, old)
+        MS.Queue = real_Q
+    res.log = log
+    return res
+
+
+def run_parent(solvers, mode, var, cache, faults, prefix, pickling, reuse=False, sched=None) -> Result:
+    sched = sched or Sched(prefix)
     world = World(len(solvers), cache, faults, sched, pickling)
     real_P, real_Q = MS.Process, MS.Queue
     MS.Process, MS.Queue = FakeProcess, FakeQueue
